@@ -26,6 +26,17 @@ crossed with identity and non-identity domain geometries (KL with all modes / tr
 mapped range geometries and observation grids that make parameter and observation dimension equal or unequal; column i of the answer
 must be range.fun2par(observe(solve(PDE_form(domain.par2fun(column i))))) computed with dense references written here, carry the range
 geometry, and a container may not be refused where the per-vector route answers; gradient likewise with direction / wrt in the container.
+
+Time-grid position facet: the time grid is placed relative to t = 0 in every qualitatively different way - starting at exactly 0.0,
+starting before 0 and holding exactly 0.0 at an interior level (every interior index), ending at exactly 0.0, strictly positive, strictly
+negative - uniform and non-uniform, crossed with the time dependent forms, both methods, observation times and grid relations; the oracle
+is the unchanged Euler loop with operator and source assembled at the step's own time (t = 0.0 is a time like any other).
+
+Process history facet (_c18_hist): the object under test lives next to SIBLINGS of the same dimension that differ in one option (shipped
+models: endpoint / source / max_time / field; generic PDE objects: grids, solver, map, form, method, time grid) built and used before and
+after it, in both construction orders; every evaluation of every object must equal an independent dense reference (for the shipped models
+the finite-difference discretisation written out in _c18_hist, not the model's own PDE_form closure) and repeated evaluations of one
+object must agree: no object may be altered by the later construction / use of another one.
 """
 import itertools
 import numpy as np
@@ -71,6 +82,22 @@ RULE = ("cells = {steady: form x solver x grid relation x observation map x mode
         "d par2fun/d wrt for a harness-supplied, point-recording jacobian_wrt_parameter (a raise is accepted where the plain-vector call "
         "raises too, and for Samples arguments).  The same container facet on the shipped Poisson1D / Heat1D models x field {None, Step, KL 3 "
         "modes, KL all modes} x observation_grid_map {None, subset} with the model's own PDE_form as the assembled system.  "
+        "Time-grid position facet: {first level exactly 0.0 (the cells above), a level m in 1..K-1 exactly 0.0 with levels before and after "
+        "it (every m), last level exactly 0.0, all levels > 0, all levels < 0} x {uniform (dt * arange), non-uniform} x K x 3 forms (operator / "
+        "source / initial-condition expression depending on t) x both methods x time_obs {final, all, on-nodes, off-nodes} x {equal, offnode}; "
+        "oracle unchanged (level 0 = PDE_form(x, t_0)[2], every stored level satisfies the recurrence with operator / source assembled at the "
+        "step's own time, observation, PDEModel.forward / gradient); a failure the same cell shows with the form's own initial time as well "
+        "keeps its ordinary signature, otherwise time=zero-inside / ends-at-zero / positive / negative is appended to the signature facet.  "
+        "Process history facet: target T {Poisson1D dim {6,9}, Heat1D dim {5,8}} x field {None, Step, KL} x observation_grid_map {None, "
+        "subset} x sibling option {endpoint, source | max_time, field} and {SteadyStateLinearPDE: 3 forms x {equal, offnode} x sibling option "
+        "{grids (+ placement), solver, map, form}; TimeDependentLinearPDE: 3 forms x 2 methods x {equal, offnode} x sibling option {grids, "
+        "solver, map, form, method, time grid / time_obs}} x construction order {sibling-first, target-first}; in a cell two siblings S1, S2 "
+        "with the target's dimension and ONE other option are interleaved with T: [build S1, eval S1, build T | build T, build S1, eval S1], "
+        "eval T, build S2, eval T, eval S2, eval S1, eval T (the same PDE_form callable is shared by the objects that use the same form); an "
+        "evaluation = assemble-solve-observe on the PDE object and PDEModel.forward at 2 parameter points; every output must equal the dense "
+        "reference of THAT object's options and every repeated evaluation the first one (relative 1e-12, no absolute floor); one verdict per "
+        "cell that does not depend on what the worker process built before: earlier-object-altered-by-later-construction (repeated "
+        "evaluations disagree), else output-under-history (reference mismatch), raises-under-history.  "
         "A cell is non-trivial when at least one observation was returned (not refused)")
 BOUND = {
     "quick": "steady: 3 forms (N=6 nodes) x 6 solvers x 6 grid relations x 3 maps (+3 domain geometries x 3 gradient hooks on the "
@@ -86,13 +113,17 @@ BOUND = {
              "off-nodes}}; time origin 2^10 x grid {unit, at 2^10} x {equal, subset, shifted} x 2 forms x 2 methods x 6 time_obs.  "
              "Container cells: 8 containers x 7 domain geometries x 2 range geometries x 3 observation grids x 4 PDEs (N=5, non-uniform K=3), "
              "Samples with 1, 2 and par_dim (3 or 5) columns; shipped: 7 containers x 4 fields x 2 observation_grid_maps x Poisson1D dim {6,9} / "
-             "Heat1D dim {5,8}",
+             "Heat1D dim {5,8}.  Time-grid position cells: 3 forms (N=5) x {uniform, non-uniform} x K in {2,3,4} x {zero at every interior "
+             "level, ends at zero, positive (first level 2^-5), negative (last level -2^-5)} x 2 methods x 4 time_obs x {equal, offnode} (1440 "
+             "cells).  Process history cells: 144 shipped (2 problems x 2 dims x 3 fields x 2 obs maps x 3 sibling options x 2 orders) + 48 "
+             "steady (N=6) + 144 time dependent (N=5, non-uniform K=3), 3 objects and 6 evaluations x 2 parameter points x 2 routes per cell",
     "thorough": "as quick with K in 2..6, N in {5,7} for the time-dependent forms, N in {6,9} steady, and all 3 value catalogues in one run; "
                 "representation cells also on the uniform K=3 grid, plus (first catalogue) the complete product 5 x 6 x 6 x 8 of "
                 "(parameter, initial condition, source, operator) representations x 2 methods x {final, all} x {equal, offnode}; "
                 "location / scale cells with N in {6,9} x all 3 maps (steady), N in {5,7} x 3 forms x {non-uniform K=3, uniform K=4} x all 6 "
                 "time_obs (time dependent); time origin in {2^10, 2^20} x 3 forms; container cells with N in {5,7} and both stepping methods "
-                "for both time dependent PDEs (6 PDEs)",
+                "for both time dependent PDEs (6 PDEs); time-grid position cells with K in 2..6 and N in {5,7}; process history cells as quick "
+                "for each of the 3 value catalogues",
 }
 ASSUMPTIONS = [
     "PDE_form callables, linear solvers and observation maps are harness-supplied (they are inputs of the property); the assembled "
@@ -127,6 +158,17 @@ ASSUMPTIONS = [
     "cells with gradient hooks); on the shipped models the parameter -> function map is the model's own domain geometry, in the PDEModel "
     "container cells it is the dense reference of _c18_cont (documented KL sine expansion with decay 2.5 / normaliser 12, step "
     "indicator of an equidistant grid in integer arithmetic, exp maps)",
+    "time-grid position: level values are sums / differences of the steps 0.008 (uniform: 0.008 * integers) or {0.004, 0.010, 0.002, ...}; "
+    "'exactly 0.0' is +0.0 (the negative zero, sub-normal levels and grids longer than 0.05 are not covered); decreasing time grids are "
+    "not covered",
+    "process history: siblings are constructed in the same process (the cell), sequentially; what the worker process constructed in "
+    "earlier cells is not controlled and the verdict is chosen not to depend on it; concurrency (threads), pickling / copying of models and "
+    "siblings of ANOTHER dimension are not covered.  Shipped models: the independent reference is the discretisation of the test problem - "
+    "Poisson1D: N = dim - 1 unknowns on linspace(dx, endpoint, N, endpoint=False), dx = endpoint / N, operator Dx^T diag(kappa) Dx with the "
+    "(N+1) x N first-difference matrix Dx / dx and homogeneous Dirichlet ends, right-hand side source(grid); Heat1D: dim unknowns, dx = "
+    "endpoint / (dim + 1), second-difference operator / dx^2, forward Euler on linspace(0, max_time, int(max_time / (5/11 dx^2)) + 1), "
+    "observation at the final time (on the unchanged tree this reference coincides with the model's own PDE_form driven through the "
+    "pipeline, the oracle of the other shipped cells); the parameter -> function map is the model's own domain geometry",
     "input integrity is demanded of the library only (harness-supplied solvers and maps do not write to their arguments); the returned "
     "observation may alias the solution",
 ]
